@@ -41,6 +41,11 @@ structure Pkt where
   hasDrop : Bool := false     -- drop_fun set
   hops    : List String := []
   src     : String := ""      -- `from` (address:port), rewritten by NAT hops
+  payload : List UInt8 := []  -- buffer contents (socket traffic; injected packets carry only `len`)
+  ec      : Ec := .ok         -- error packets: the error code
+  chan    : Option Nat := none  -- SYN / SYN-ACK: the channel being established
+  bc      : Nat := 0          -- byte_counter (TCP sequence number in the capture)
+  dropFwd : Option Nat := none  -- drop callback bound to a socket through this forwarder
   deriving DecidableEq, Repr, Inhabited
 
 def Pkt.size (p : Pkt) : Nat := p.len + p.ovh
